@@ -64,6 +64,12 @@ func arityScenarioPath(tuple []ct.Comp, depth int, path model.Path) *engine.Scen
 	if hasX {
 		filters = append(filters, model.FilterSpec{Params: []ct.Comp{x}, Without: ct.Of(tuple[0])}) // f2
 	}
+	fixedF := -1
+	if canFilter && hasX && len(relc) > 0 {
+		// f3: the typed filter with a permanent relation target (#0), used for batches as well as for queries
+		fixedF = len(filters)
+		filters = append(filters, model.FilterSpec{Params: tuple, Rels: rel(relc[0], 0)})
+	}
 	family := []model.FilterSpec{{}, {Params: tuple, Unsafe: true}}
 	if canFilter {
 		family = append(family, model.FilterSpec{Params: tuple}, model.FilterSpec{Params: tuple, Exclusive: true})
@@ -252,6 +258,12 @@ func arityScenarioPath(tuple []ct.Comp, depth int, path model.Path) *engine.Scen
 		}
 		if toggle >= 0 {
 			ops = append(ops, model.Op{K: model.OpUnobserve, O: toggle}, model.Op{K: model.OpObserve, O: toggle})
+		}
+		if fixedF >= 0 {
+			// batch selection through the filter with the permanent target must equal its query
+			ops = append(ops,
+				model.Op{K: model.OpRemoveEntities, F: fixedF, Fn: true},
+				model.Op{K: model.OpSetRelBatch, Path: path, F: fixedF, Ord: tuple, T: rel(relc[0], model.ZeroTarget)})
 		}
 		if canFilter {
 			ops = append(ops, regOps(m, []int{1})...)
